@@ -170,3 +170,11 @@ def run(env, rep):
         from . import C15, C06
         C15.run(env, PrefixReport(rep, "C15.R5", "C01.R9", only=("C15.R5",), keys=lambda k: str(k).startswith("deserializer") or "anchor" in str(k)))
         C06.run(env, PrefixReport(rep, "C06.R7", "C01.R9", only=("C06.R7",)))
+    if wants(rep, "C01.R10"):
+        from . import C06 as _C06b
+        _C06b.run(env, PrefixReport(rep, "C06.R3", "C01.R10", only=("C06.R3",)))
+    if wants(rep, "C01.R11"):
+        from . import chunk as _chunk
+        _m = _chunk.ChunkModel(env, rep, "C01.anchors")
+        if _m.ok:
+            _chunk.setter_applies_size(_m, rep, "C01.R11")
